@@ -117,7 +117,7 @@ def run(prog: Program, rep, tier: str) -> None:
                     continue
                 if f[0] == "<" and f[2] == "self.params.lamb_max":
                     continue
-                if f[0] in ("truthy", "falsy") and f[2] is None and __import__("re").fullmatch(r"__phi__\((?:True|False)(?:, (?:True|False))*\)", f[1]):
+                if f[0] == "flag":
                     continue   # a literal flag: what it stands for has been added as the conditions of its True / False assignments
                 if is_path and f[0] == "isnot" and f[2] == "None" and "__phi__" in f[1] and "None" in f[1]:
                     continue
